@@ -8,9 +8,9 @@
 package main
 
 import (
-	"math/big"
 	"encoding/json"
 	"fmt"
+	"math/big"
 	"os"
 	"strings"
 	"time"
